@@ -87,6 +87,8 @@ func workspace(base string) {
 	// diagnostics whose text contains '%' (quoted code, fmt verbs): must be forwarded verbatim by every front-end
 	w("f/pct.go", "package f\n\nimport \"fmt\"\n\nfunc Q(s string, x int) (string, bool) {\n\treturn fmt.Sprintf(\"\\\"%s\\\"\", s), !(x%2 != 0)\n}\n")
 	w("g/g.go", "package g\n\ntype big struct{ a [40]int }\n\nfunc H(b big, fs []func()) int {\n\tfor _, f := range fs {\n\t\tdefer f()\n\t}\n\tfor _, x := range []big{b} {\n\t\t_ = x\n\t}\n\treturn b.a[0]\n}\n")
+	// names introduced by := (the local-definition walker): shadows of builtins and imports, capitalised locals
+	w("h/h.go", "package h\n\nimport \"strings\"\n\nfunc S(xs []int) int {\n\tlen := len(xs)\n\tnew, cap := 2, 3\n\tUpper := strings.ToUpper(\"x\")\n\tstrings := Upper\n\t_ = strings\n\tfor Idx, copy := range xs {\n\t\t_, _ = Idx, copy\n\t}\n\treturn len + new + cap\n}\n")
 	w("d/d.go", "package d\n\nimport \"strings\"\n\nfunc D(s string) bool { return strings.Index(s, \"x\") >= 0 }\n\nfunc E(t []int) []int { return t[:] }\n")
 }
 
@@ -113,6 +115,7 @@ func Run(tier string, seed int64, outDir string) *common.Meta {
 		{"embedded names", []string{"-enable=sloppyLen,assignOp,emptyStringTest,wrapperFunc,unslice"}, []string{"-enable=sloppyLen,assignOp,emptyStringTest,wrapperFunc,unslice", "-disable="}, nil},
 		{"tags", []string{"-enable=#diagnostic,#style", "-disable=#experimental,#opinionated"}, []string{"-enable=#diagnostic,#style", "-disable=#experimental,#opinionated"}, nil},
 		{"parameter", []string{"-enable=captLocal", "-@captLocal.paramsOnly=false"}, []string{"-enable=captLocal", "-disable=", "-@captLocal.paramsOnly=false"}, nil},
+		{"shadow checkers", []string{"-enable=builtinShadow,importShadow,captLocal", "-@captLocal.paramsOnly=false"}, []string{"-enable=builtinShadow,importShadow,captLocal", "-disable=", "-@captLocal.paramsOnly=false"}, nil},
 		{"enable-all minus tags", []string{"-enableAll", "-disable=#performance,#opinionated"}, []string{"-enable-all", "-disable=#performance,#opinionated"}, nil},
 		{"names whose tags are disabled", []string{"-enable=#diagnostic,deferInLoop,hugeParam,captLocal", "-disable=#experimental,#performance"}, []string{"-enable=#diagnostic,deferInLoop,hugeParam,captLocal", "-disable=#experimental,#performance"}, nil},
 		{"tag enabled, name disabled", []string{"-enable=#style,#performance", "-disable=captLocal,hugeParam,#opinionated"}, []string{"-enable=#style,#performance", "-disable=captLocal,hugeParam,#opinionated"}, nil},
